@@ -39,7 +39,7 @@ def strategy(tier):
                             st.text(alphabet=st.sampled_from(list("GET /HTP1.\r\n:abc \t\x00")), max_size=60)),
         "kind": st.sampled_from(list(wenv.KINDS)),
         "cuts": st.lists(st.integers(1, 400), max_size=3),
-        "recv_fault": st.one_of(st.none(), st.tuples(st.integers(0, 4), st.sampled_from([104, 104, 32, 107])).map(list)),
+        "recv_fault": st.one_of(st.none(), st.tuples(st.integers(0, 4), st.sampled_from([104, 104, 32, 107, "T", "T"])).map(list)),
         "send_fault": st.one_of(st.none(), st.tuples(st.integers(0, 4), st.sampled_from([32, 104])).map(list)),
         "read_input": st.sampled_from(["none", "all", "some", "line"]),
         "keepalive": st.sampled_from([0, 2, 2]),
